@@ -54,7 +54,7 @@ CHECKS = {
    text="Interval / ordering / containment / sign / finiteness predicates for the 14 range-documented indicators, 6 methods, clv and tr on every step; finiteness for all 36 indicators. Allowances: 64*u*(n+t) for unit-interval ratios (scaled by M_history/denominator for ratios of running sums, NOT relaxed on exactly flat windows), times price scale for orderings.",
    note="Value-slot meanings from DESIGN.md App. B. RSI/Stochastic/SMI/Envelopes range monitors only for MA kinds that cannot overshoot; volume-based sources exempt; finiteness exempt where the formula is undefined (zero window volume, correlation of a constant window)."),
  "C19": dict(level="exploration", design="§4 C19, §2.7",
-   technique=TECH + "heterogeneous builds as replicas: the same seeded programs (Window observers/iterators/rebuilds, methods and indicators with ticks, batches, peeks, snapshots, crash-restores, forks) are executed by the default build and by the unsafe_performance build and the transcripts diffed; a second program set is executed by the unsafe_performance build inside the Miri interpreter, whose undefined-behaviour detector (bounds, validity, Stacked Borrows aliasing) is the in-bounds oracle",
+   technique=TECH + "heterogeneous builds as replicas: the same seeded programs (Window observers/iterators/rebuilds, methods and indicators with ticks, batches, peeks, snapshots, crash-restores, forks) are executed by the default build and by the unsafe_performance build and the transcripts diffed; a second program set is executed by the unsafe_performance build inside the Miri interpreter, whose undefined-behaviour detector (bounds, validity, Stacked Borrows aliasing) is the in-bounds oracle; the crash / restore / corrupt-restore engine of C13 re-run inside the unsafe_performance build (storage faults are not part of the programs)",
    text="Transcript equality on 3 000 (quick) / 30 000 (thorough, also plain release profile) programs filtered to those on which the default build does not panic; 24 / 400 programs under Miri, biased to Window/SMM/median users. Samples programs; Miri decides only the executions it ran.",
    note="Programs are generated by the default build and handed over as explicit JSON. Miri's Stacked Borrows is experimental but is the strictest available in-bounds/aliasing oracle here (ASan needs a rebuilt std; not attempted). Transcripts produced under Miri are not compared."),
  "C20": dict(level="exploration", design="§4 C20, §2.7",
